@@ -12,7 +12,9 @@ copied the code's per-method-stack merging of duplicate registrations. The spec 
 chain after an override = later-registered registrations of the current method's stack; only *consecutive* duplicate registrations form one
 route), the replay then showed 2 076 of 984 600 three-route scenarios differing on the real router (a trailing `Use` never run after a method
 override, or the overriding middleware run twice), and `6bd4617` repairs it (merge only consecutive registrations, so that all method stacks
-group alike). Quick 40-75 s, thorough ~8 min (3.5 M scenarios). A run-away guard in the driver turns "a handler ran more than 50 times" into an observation instead of a hung driver (the
+group alike). The quick tier also runs all tables of three registrations over a two-pattern pool, with registrations
+made for two methods at once (`app.Add([GET, POST], ...)`, kind `GET+POST` in the spec): the smallest tables in which an endpoint, a later
+middleware and another method's endpoint meet. Quick 40-90 s (537 k scenarios), thorough ~8 min (3.5 M). A run-away guard in the driver turns "a handler ran more than 50 times" into an observation instead of a hung driver (the
 double-execution defect looped under one table)."""
 ASBUILT["C02"] = """**As built (C02 and C03 share `vlib/c02.py`).** `spec/PathMatch.tla` (reference relations `AllMay`/`AllMust`, `WellFormed`, `Delimited`, `NoExtra`,
 `RestDroppable`), `PathMatch_Gen.tla` (+ pools small/mid/full, `ExtraPats`, the C03 lemma as an invariant), `harness/c02_test.go`. Quick: 467 k
@@ -20,13 +22,18 @@ ASBUILT["C02"] = """**As built (C02 and C03 share `vlib/c02.py`).** `spec/PathMa
 disagreement. Fixed on the way: `ec56936`, `e188dc8` (C02), `11a0cd5`, `6150301`, `d91bf3b` (C03)."""
 ASBUILT["C04"] = """**As built.** `spec/Mount.tla` (+ `MC_Mount*.cfg`; actions `AddRoute`, `Open(group|mount)`, `Close`, `Rebuild` -- a request served between two
 registrations, which forces the route tree to be rebuilt while mounts are pending), `harness/c04_test.go` building every program three ways
-(mounts before / after population, groups, flat). Quick 165 k states, 62 k programs, 33 s. Fixed: `c8ee2b3` (params / root / star flags of
+(mounts before / after population -- the former with the prefix in its list form `Use([]string{p}, sub)` --, groups, flat). Quick 165 k
+states, 62 k programs, 33 s; thorough 2 routes / 3 containers / depth 3: 2.5 M states, 824 k programs, 9.5 min (3/3/3 with the larger pools
+passed 127 M states without finishing and was abandoned). Fixed: `c8ee2b3` (params / root / star flags of
 mounted routes) and `f811e1d` (a sub-app mounted at "/" inside a sub-app that is itself mounted at "/": start-up nil dereference -- first kept
 as the known finding `C04-nested-root-mount`, then repaired when a four-line fix turned up; the check now has no open finding)."""
 ASBUILT["C05"] = """**As built.** `spec/CtxLifecycle.tla` (+ `MC_CtxLifecycle.cfg`, `_mutant.cfg`: forgetting to reset one field must violate `NoForeignData`) and
 `harness/c05_test.go`: every history of <= 2 (thorough 3) preceding requests from 15 kinds x 5 probes is served **from wire bytes on one recycled
 `fasthttp.RequestCtx`** (flash-cookie parsing reads `RawHeaders`, which only a wire-parsed request has), GC off, pointer identity of the pooled
-context recorded. The white-box export hook of section 5 was not needed. The concurrent variant was not built. Fixed: `6cd3566` (stale flash
+context recorded; every history runs on a **fresh application** (application-level stores such as the SendFile handler store start empty, so
+what a probe sees can only come from its own history). Kinds and probes added after the second round of seeded changes: an optional
+parameter and a catch-all left empty by the probe, `SendFile` with and without `MaxAge`. The same histories are then run by 8 goroutines at
+once against one application (`TestC05Conc`; contexts migrate between goroutines, counted). The white-box export hook of section 5 was not needed. Fixed: `6cd3566` (stale flash
 slots). The seeded change C11B (a `Bind` object surviving in the pooled context) is caught here as well."""
 ASBUILT["C06"] = """**As built.** `spec/Immutable.tla` (+ mutant config: an aliasing accessor under `Immutable` must violate the invariant) and `harness/c06_test.go`
 as a *forward* replay (TLC enumerates option x request shape x reuse history; the driver captures 25 accessor values without copying, serves
@@ -39,8 +46,12 @@ request classes x 16 helpers x 8 argument classes (CR, LF, CRLF + header line, C
 application variants (default / custom context / Immutable / custom `RequestMethods` / `UnescapePath`, all with small `BodyLimit` and
 `ReadBufferSize`). `harness/c07_test.go` sends raw bytes over `fasthttputil.InmemoryListener`, parses with its own strict parser (CRLF line ends,
 token names, no CR/LF/NUL in values -- RFC 9110 5.5 -- Content-Length framing), measures `TotalAlloc` per exchange, probes the connection with a
-second request. The handler first calls every request accessor on the (possibly hostile) request. A second part sends seeded byte-level
-mutants of the templates (3 000 quick / 60 000 thorough) with the spec's status universe and `Closing` as oracle. A server crash is
+second request. The handler first calls every request accessor on the (possibly hostile) request. The classes `hostileheaders` / `hostileframing` are expanded by the driver into ~190 concrete members (one
+hostile Range / Accept* / Cookie / Content-Encoding / X-Forwarded-* / If-None-Match ... resp. Host / Transfer-Encoding / multipart boundary value
+each); `removedstandard` is a standard method the variant's `RequestMethods` has removed (501 there, 200 elsewhere); `Burst` is 6 rounds of 32
+connections at once on the plain handler and on `SendFile` / `Download` with options nobody used before (every request must be answered). A
+second part sends seeded byte-level mutants of the templates (3 000 quick / 60 000 thorough) with the spec's status universe and `Closing` as
+oracle. A server crash is
 reported as a violation (`wire-server-crashed`), not as exit 2, because the crash *is* the property's failure mode; any other driver death
 is exit 2. Not built: child process under `ulimit -v` per case (one process per check instead), `net/http.ReadResponse` as second parser.
 Fixed: `9e4b00a` (custom context + unknown method: `index out of range [-1]`, process dies), `ca5d8ed` (header injection through `Location`,
@@ -51,8 +62,9 @@ ASBUILT["C08"] = """**As built.** `spec/ErrorHandler.tla` + `MC_ErrorHandler.tla
 `harness/c08_test.go`: forests of <= 3 mounted apps over 7 confusable prefixes, every scenario run repeatedly on apps mounted parent-first and
 child-first, with the error raised by root middleware before the mounts, after them, or by a handler inside the mounted apps. 387 k states, 191 k scenarios, 45-80 s. Fixed: `b918f62`."""
 ASBUILT["C09"] = """**As built.** `spec/Negotiation.tla` (`Pick`, `FormatOutcome`, `ZeroNeverSelects`, `AbsentSelectsFirst`), `harness/c09_test.go` (4 spellings per abstract
-header; `Accepts` twice on a pooled context, `Format`). `AcceptsCharsets/Encodings/Languages` are not enumerated separately (same selection code
-path; their hostile-input totality is exercised under C07). False alarms corrected: `Format`'s 406 is a status, not an error; with an absent
+header; `Accepts` twice on a pooled context, `Format`). Token lists (`AcceptsCharsets/Encodings/Languages`) are enumerated as ranges with an empty subtype over three tokens that are no prefixes of
+one another. Bounds are explicit constants: quick 2 ranges x 2 offers (75 k cases), thorough 3 x 2 and a wider q / parameter pool 2 x 3 (3.3 M
+cases, 7 min; the first thorough configuration, 3 x 3 over the wide pool, was 87 M cases and was abandoned after 7 GB of output). False alarms corrected: `Format`'s 406 is a status, not an error; with an absent
 `Accept` the default handler of `Format` is not asserted."""
 ASBUILT["C10"] = """**As built.** `spec/TrustProxy.tla` (`Trusted`, output functions, `NonInterference`, `SecureIffHttps`, `ValidatedIPIsAnAddress`), `harness/c10_test.go` with
 `fakeConn`/`fakeTLSConn` supplying peer address and TLS state. 179 k states, 178 k cases, 20 s. Fixed: `a7429d1`, `b3a2d9c`."""
@@ -84,8 +96,10 @@ entries a history is no longer compared (`amb` flag). The origin's headers are f
 and a repeated custom header), so every served response is checked against the body the specification prescribes; histories are replayed with
 and without `StoreResponseHeaders`. Fixed: `a67f42a`, `bd72493`, `ce6213b` (a repeated origin header was replayed with its last value only). The seeded change C14B is neutralised by `bd72493`."""
 ASBUILT["C15"] = """**As built.** `spec/Session.tla` (mode `middleware` / `store`), `harness/c15_test.go`, simulated histories replayed under the virtual clock for cookie /
-header / query sources on memory and external storage with a counting `KeyGenerator`. Sequential only: the concurrent same-id exploration
-was not built."""
+header / query sources on memory and external storage with a counting `KeyGenerator`. Writes after `Destroy` in the same request (nothing of
+them is kept), a second `store.Get` for a loaded session (`ReGet`: same id, stored data, absolute deadline unchanged) and a focused
+configuration (`Session_Hist_life.cfg`: one client, single ticks of 2 between requests, so that a session in use meets its absolute deadline)
+were added after the second round of seeded changes. Sequential only: the concurrent same-id exploration was not built."""
 ASBUILT["C16"] = """**As built.** `spec/Csrf.tla` (+ `Csrf_Hist.cfg.tmpl`; `SessionBackend`, `Put/Drop` token semantics of the session back end), `harness/c16_test.go`.
 Fixed: `7171d2e` (Referer compared as an origin). False alarm corrected: a DELETE route that sits behind the middleware is an unsafe request
 like any other; the first model treated the harness's own "delete token" route as safe."""
